@@ -431,5 +431,49 @@ impl MainEvent {
     }
 }
 
+#[cfg(feature = "verif-hooks")]
+#[doc(hidden)]
+pub mod verif_hooks {
+    use super::*;
+    pub fn wire_signals(ev: &MainEvent) -> &[Option<Vec<f64>>; TPC_ANODE_WIRES] {
+        &ev.wire_signals
+    }
+    pub fn pad_signals(ev: &MainEvent) -> &[[Option<Vec<f64>>; TPC_PAD_ROWS]; TPC_PAD_COLUMNS] {
+        &ev.pad_signals
+    }
+    pub fn main_event_from_signals(
+        wires: Vec<(usize, Vec<f64>)>,
+        pads: Vec<(usize, usize, Vec<f64>)>,
+        trigger_timestamp: u32,
+    ) -> MainEvent {
+        let mut wire_signals = [(); TPC_ANODE_WIRES].map(|_| None);
+        let mut pad_signals = [(); TPC_PAD_COLUMNS].map(|_| [(); TPC_PAD_ROWS].map(|_| None));
+        for (i, s) in wires {
+            wire_signals[i] = Some(s);
+        }
+        for (c, r, s) in pads {
+            pad_signals[c][r] = Some(s);
+        }
+        MainEvent {
+            wire_signals,
+            pad_signals,
+            trigger_timestamp,
+        }
+    }
+    pub fn pad_deconvolution(signal: &[f64]) -> Vec<f64> {
+        crate::deconvolution::pads::pad_deconvolution(signal)
+    }
+    pub fn contiguous_ranges(w: &[Option<Vec<f64>>; TPC_ANODE_WIRES]) -> Vec<(usize, usize)> {
+        crate::deconvolution::wires::contiguous_ranges(w)
+    }
+    pub fn wire_deconvolution(w: &[Option<Vec<f64>>; TPC_ANODE_WIRES]) -> Vec<(usize, Vec<f64>)> {
+        let mut out = Vec::new();
+        for range in contiguous_ranges(w) {
+            out.extend(crate::deconvolution::wires::wire_range_deconvolution(w, range));
+        }
+        out
+    }
+}
+
 #[cfg(test)]
 mod tests;
